@@ -145,6 +145,17 @@ class C19:
         if got is not None and got != want:
             res.fail("%s|own-decoder|%s" % (sig, shape(want, got, case)), "mapping %s (first line %d) froze to %s which xdis decodes as %s" % (
                 want[:6], case["first"], rw.hx(fb)[:80], got[:6]))
+        # the same on another host Python (freeze() and the decoders are plain Python: one answer on 3.8 ... 3.13)
+        if (len(fb) + case["codelen"]) % 5 == 0:
+            from vf.pool import HOSTS
+            h = HOSTS[(len(fb) + case["first"]) % len(HOSTS)]
+            r = ctx.pool.host(h).call_raw("x_c19", type=typ, first=case["first"], codelen=case["codelen"], pairs=pairs, vt=list(vt))
+            res.classes.append("on-host:" + h)
+            if not r["ok"]:
+                res.fail("%s|on-host|raised|%s" % (sig, r["err"].split(":")[0]), "on a %s host freeze/decode raised %s" % (h, r["err"][:160]))
+            elif r["r"]["frozen"] != rw.hx(fb) or r["r"]["decoded"] != want:
+                res.fail("%s|on-host|%s" % (sig, "encode" if r["r"]["frozen"] != rw.hx(fb) else "decode"), "on a %s host the mapping %s freezes to %s and decodes as %s "
+                         "(3.12: %s / %s)" % (h, want[:6], r["r"]["frozen"][:60], r["r"]["decoded"][:6], rw.hx(fb)[:60], want[:6]))
         # a frozen object given a NEW table and frozen again encodes the new table
         try:
             shifted = dict((o, l + 3) for o, l in pairs)
